@@ -133,7 +133,7 @@ def gammas(case, n):
     return g
 
 
-F_PAIR = 2.0  # slope tolerance = unc + F_PAIR * S_k * ln(N1)/N1      (measured <= 0.2 S_k ln N1/N1)
+F_PAIR = 4.0  # slope tolerance = unc + F_PAIR * S_k * ln(N1)/N1      (measured <= 0.41 S_k ln N1/N1)
 F_FIT = 1e-5  # fit tolerance   = unc + F_FIT * S_k                     (measured <= 1.5e-6 S_k)
 UNC_FACTOR = 1.5  # on the quoted literature uncertainty of A_4 (central approximations)
 UNC_FACTOR_BAND = 4.0  # error-band members (variation != 0) deliberately scan A_4: measured <= 2.2 x quoted unc.
@@ -224,7 +224,7 @@ def run(ctx):
         "four-loop gluon cusp is not Casimir-scaled; the statement's (C_A/C_F) A_k is demanded for k<=3 only and the "
         "literature gluon value for k=4",
         "error-band members of the N3LO approximations (variation != 0) get 4x the quoted A_4 uncertainty instead of 1.5x",
-        "tolerances: pair slope 1.5*unc + 2*S_k*ln(N1)/N1 (1/N correction, measured <=0.2), fit 1.5*unc + 1e-5*S_k "
+        "tolerances: pair slope 1.5*unc + 4*S_k*ln(N1)/N1 (1/N correction, measured <=0.41), fit 1.5*unc + 1e-5*S_k "
         "(measured <=1.5e-6), S_k = sum of |nf-coefficients| of A_k (times C_A/C_F for gg)",
         "time-like and polarised gluon-gluon entries are included (the cusp is universal)",
         "real N only; nf restricted to 3..5 as in the statement",
